@@ -146,6 +146,15 @@ def run(ctx):
                        detail=f'accumulator initialised with {norm(init[0]) if init else None}')
             sub0 = [n for n in own_nodes(f.node) if isinstance(n, ast.Assign) and isinstance(n.targets[0], ast.Subscript)
                     and isinstance(n.targets[0].slice, ast.Constant) and n.targets[0].slice.value == 0 and norm(n.value) == acc]
+            if not sub0:
+                # or the shape is built in one go:  [acc] + list(first.shape[1:])  /  (acc,) + first.shape[1:]  /  (acc, *first.shape[1:])
+                for n_ in own_nodes(f.node):
+                    if isinstance(n_, ast.Assign) and isinstance(n_.value, (ast.BinOp, ast.Tuple, ast.List)):
+                        t_ = norm(n_.value).replace(' ', '')
+                        if first is not None and t_ in (f'[{acc}]+list({first}.shape[1:])', f'({acc},)+{first}.shape[1:]',
+                                                         f'({acc},)+tuple({first}.shape[1:])', f'({acc},*{first}.shape[1:])',
+                                                         f'[{acc},*{first}.shape[1:]]', f'[{acc}]+[*{first}.shape[1:]]'):
+                            sub0 = [n_]
             ctx.decide(len(sub0) == 1, 'R-FLOW', 'D4', f, sub0[0] if sub0 else None, 'shape0-is-accumulator',
                        'the descriptor\'s first extent is the accumulated length', detail='shape[0] is not the accumulator')
     nt = ctx.repo.func('numtype.arraynumtypeinfo')
